@@ -160,26 +160,27 @@ func (p *SyncedPool) Flush(id []byte) error {
 
 func (p *SyncedPool) flush(id []byte) error {
 	queuedDropsList := p.popQueuedDrops()
-	// close DBs to be dropped
-	toDrop := make([]kvdb.Store, 0, len(queuedDropsList))
+	// DBs to be dropped
+	toDrop := make([]*closeDropWrapped, 0, len(queuedDropsList))
 	for _, name := range queuedDropsList {
 		w := p.wrappers[name]
 		delete(p.wrappers, name)
 		if w.Flushable == nil {
 			continue
 		}
-		err := w.Flushable.RealClose()
-		if err != nil {
-			return err
-		}
-		db := w.Flushable.underlying
-		if db == nil {
-			continue
-		}
-		toDrop = append(toDrop, db)
+		toDrop = append(toDrop, w.Flushable)
 	}
 
-	// write dirty flags
+	// write dirty flags, also into the DBs which are going to be dropped:
+	// a crash before, between or after the drops must be detected
+	for _, w := range toDrop {
+		if db := w.underlying; db != nil {
+			err := MarkFlushID(db, p.flushIDKey, DirtyPrefix, id)
+			if err != nil {
+				return err
+			}
+		}
+	}
 	for _, w := range p.wrappers {
 		db, err := w.Flushable.InitUnderlyingDb()
 		if err != nil {
@@ -192,9 +193,15 @@ func (p *SyncedPool) flush(id []byte) error {
 		}
 	}
 
-	// drop DBs only after the dirty flags are written, so that a crash in between is detected
-	for _, db := range toDrop {
-		db.Drop()
+	// close and drop DBs only after the dirty flags are written
+	for _, w := range toDrop {
+		err := w.RealClose()
+		if err != nil {
+			return err
+		}
+		if db := w.underlying; db != nil {
+			db.Drop()
+		}
 	}
 
 	// flush data
